@@ -1003,7 +1003,22 @@ func (e *Exec) execInstr(s *State, f *Frame, instr ssa.Instruction) {
 	case *ssa.Next:
 		f.env[in] = e.next(s, f, in)
 	case *ssa.Select:
-		panic(unsupported("select statement"))
+		// sequential over-approximation: any case may be the one that proceeds; received values are arbitrary
+		e.note("select: any ready case may be chosen, received values unconstrained: " + f.fn.String())
+		n := len(in.States)
+		idx := e.c.Fresh("select.idx", SBV(64))
+		lo := uint64(0)
+		if !in.Blocking {
+			lo = ^uint64(0) // -1: the default case
+		}
+		s.assume(e.c.And(e.c.SLe(BVConst(lo, 64), idx), e.c.SLt(idx, BVConst(uint64(n), 64))))
+		tv := TupleV{idx, e.c.Fresh("select.ok", SBool)}
+		for _, st := range in.States {
+			if st.Dir == types.RecvOnly {
+				tv = append(tv, e.freshValS(s, st.Chan.Type().Underlying().(*types.Chan).Elem(), "select.recv"))
+			}
+		}
+		f.env[in] = tv
 	case *ssa.Send:
 		e.note("channel send ignored: " + f.fn.String())
 	case *ssa.DebugRef:
